@@ -392,6 +392,11 @@ def run_check(pid, tier="quick", seed=0, workers=None, limit=None, verbose=True)
     for idx, he in agg["harness_errors"][:3]:
         print(f"HARNESS-ERROR in scenario {idx}: {he}")
         rc = 2
+    # a check may name regimes without which its run is vacuous (a family that silently degraded to notes): never a silent pass
+    req = [w for w in getattr(mod, "REQUIRED_WITNESSES", []) if not agg["witness"].get(w)]
+    if req and not limit and rc == 0:
+        print(f"HARNESS-ERROR vacuous exploration: required regime(s) never observed: {req}")
+        rc = 2
     return rc
 
 
